@@ -648,3 +648,94 @@ Proof.
     + cbn [forallb]. rewrite SC. exact SS.
     + pose proof (utf8_len (t0 :: ttl)). rewrite app_length. cbn [length] in *. lia.
 Qed.
+
+(* ---------------------------------------------------------------------------------------------- *)
+(* triple-quoted strings *)
+Lemma match3 {A B} (l : list A) (a b : B) : (3 <= length l)%nat ->
+  match l with _ :: _ :: _ :: _ => a | _ => b end = a.
+Proof. destruct l as [|x [|y [|z t]]]; cbn [length]; intros; try lia; reflexivity. Qed.
+
+Definition close_test (T : list N) (quote : N) : option nat :=
+  match T with
+  | _ :: _ :: _ :: _ =>
+      let '(r1, s1) := decode_rune T in
+      let '(r2, s2) := decode_rune (skipn s1 T) in
+      let '(r3, s3) := decode_rune (skipn (s1 + s2) T) in
+      if (r1 =? quote) && (r2 =? quote) && (r3 =? quote) then Some (s1 + s2 + s3)%nat else None
+  | _ => None
+  end.
+
+Lemma close_test3 a b c rest q : scalar a = true -> scalar b = true -> scalar c = true ->
+  close_test (encode_rune a ++ encode_rune b ++ encode_rune c ++ rest) q =
+  if (a =? q) && (b =? q) && (c =? q)
+  then Some (length (encode_rune a) + length (encode_rune b) + length (encode_rune c))%nat else None.
+Proof.
+  intros SA SB SC. unfold close_test.
+  rewrite match3 by (rewrite !app_length; pose proof (encode_len a); pose proof (encode_len b); pose proof (encode_len c); lia).
+  rewrite (decode_encode a _ SA). rewrite skipn_app_len. rewrite (decode_encode b _ SB).
+  replace (skipn (length (encode_rune a) + length (encode_rune b)) (encode_rune a ++ encode_rune b ++ encode_rune c ++ rest))
+    with (encode_rune c ++ rest) by (rewrite app_assoc, <- app_length, skipn_app_len; reflexivity).
+  rewrite (decode_encode c _ SC). reflexivity.
+Qed.
+
+Lemma close_test_none x rs r :
+  forallb scalar (x :: rs) = true -> starts3 ((x :: rs) ++ [39; 39; 39]) = false ->
+  close_test (utf8 (x :: rs) ++ 39 :: 39 :: 39 :: r) 39 = None.
+Proof.
+  intros SC ST. cbn [forallb] in SC. apply andb_prop in SC. destruct SC as [SX SC].
+  assert (S39 : scalar 39 = true) by reflexivity.
+  destruct rs as [|y [|z rs]].
+  - change (utf8 [x] ++ 39 :: 39 :: 39 :: r) with ((encode_rune x ++ []) ++ encode_rune 39 ++ encode_rune 39 ++ 39 :: r).
+    rewrite app_nil_r. rewrite close_test3 by assumption. cbn [app starts3] in ST. rewrite ST. reflexivity.
+  - cbn [forallb] in SC. apply andb_prop in SC. destruct SC as [SY _].
+    change (utf8 [x; y] ++ 39 :: 39 :: 39 :: r) with ((encode_rune x ++ encode_rune y ++ []) ++ encode_rune 39 ++ 39 :: 39 :: r).
+    rewrite app_nil_r, <- app_assoc. rewrite close_test3 by assumption. cbn [app starts3] in ST. rewrite ST. reflexivity.
+  - cbn [forallb] in SC. apply andb_prop in SC. destruct SC as [SY SC]. apply andb_prop in SC. destruct SC as [SZ _].
+    cbn [utf8 flat_map]. fold (utf8 rs). rewrite <- !app_assoc. rewrite close_test3 by assumption.
+    cbn [app starts3] in ST. rewrite ST. reflexivity.
+Qed.
+
+Lemma triple_body_spec bs start rs : forall fuel r p buf,
+  forallb scalar rs = true -> no_tclose rs = true -> (length rs < fuel)%nat ->
+  triple_body bs fuel start 39 (utf8 rs ++ 39 :: 39 :: 39 :: r, p) buf =
+  Val ((TT_TripleSingleQuotedString, buf ++ utf8 rs, 39), (r, p + N.of_nat (length (utf8 rs) + 3))).
+Proof.
+  induction rs as [|x rs IH]; intros fuel r p buf SC NT Hf; (destruct fuel as [|f]; [cbn in Hf; lia |]).
+  - cbn [utf8 flat_map app length Nat.add]. rewrite app_nil_r. reflexivity.
+  - cbn [no_tclose] in NT. apply andb_prop in NT. destruct NT as [ST NT]. apply negb_true_iff in ST.
+    pose proof (close_test_none x rs r SC ST) as CN.
+    cbn [forallb] in SC. apply andb_prop in SC. destruct SC as [SX SC].
+    cbn [triple_body fst].
+    change (match utf8 (x :: rs) ++ 39 :: 39 :: 39 :: r with
+            | _ :: _ :: _ :: _ =>
+                let '(r1, s1) := decode_rune (utf8 (x :: rs) ++ 39 :: 39 :: 39 :: r) in
+                let '(r2, s2) := decode_rune (skipn s1 (utf8 (x :: rs) ++ 39 :: 39 :: 39 :: r)) in
+                let '(r3, s3) := decode_rune (skipn (s1 + s2) (utf8 (x :: rs) ++ 39 :: 39 :: 39 :: r)) in
+                if (r1 =? 39) && (r2 =? 39) && (r3 =? 39) then Some (s1 + s2 + s3)%nat else None
+            | _ => None
+            end) with (close_test (utf8 (x :: rs) ++ 39 :: 39 :: 39 :: r) 39).
+    rewrite CN.
+    cbn [utf8 flat_map]. fold (utf8 rs). rewrite <- app_assoc.
+    rewrite match_ne by apply enc_app_ne. rewrite (decode_encode x _ SX). rewrite adv_app.
+    assert (R : triple_body bs f start 39 (utf8 rs ++ 39 :: 39 :: 39 :: r, p + N.of_nat (length (encode_rune x)))
+                  (buf ++ encode_rune x) =
+                Val ((TT_TripleSingleQuotedString, buf ++ encode_rune x ++ utf8 rs, 39),
+                     (r, p + N.of_nat (length (encode_rune x ++ utf8 rs) + 3)))).
+    { rewrite IH by (auto; cbn [length] in Hf; lia). rewrite <- app_assoc. fin. }
+    destruct (x =? 10); exact R.
+Qed.
+
+Lemma munch_LTriple rs : munches (LTriple rs).
+Proof.
+  intros bs r i OK _. cbn [lex_ok render tok_of] in *. apply andb_prop in OK. destruct OK as [SC NT].
+  cbn [app]. rewrite <- app_assoc. cbn [app].
+  unfold next_token. cbn [fst]. rewrite decode_ascii by lia.
+  destruct (family_facts 39 eq_refl) as (F1 & F2 & F3 & F4 & F5). rewrite F1, F2, F3, F4, F5. cbn [orb].
+  replace (is_single_quote_family 39) with true by reflexivity.
+  unfold read_quoted_string. cbn [fst snd]. rewrite !decode_ascii by lia. cbn [fst N.eqb Pos.eqb andb].
+  unfold adv_rune. rewrite !adv_cons1. cbn [fst snd]. rewrite decode_ascii by lia. rewrite !adv_cons1.
+  cbn [fst snd]. rewrite decode_ascii by lia. rewrite !adv_cons1. cbn [fst snd].
+  rewrite triple_body_spec; auto.
+  - fin.
+  - pose proof (utf8_len rs). rewrite app_length. lia.
+Qed.
